@@ -15,6 +15,39 @@ from . import front
 from .front import FuncInfo, ClassInfo, ModuleInfo
 
 
+_PURE_CACHE = {}
+_ARITH_KINDS = None
+
+
+def is_pure_arith(e) -> bool:
+    """Only Int/Bool constants, numerals and arithmetic / boolean / comparison operators (no function symbols, no sequences)."""
+    global _ARITH_KINDS
+    if _ARITH_KINDS is None:
+        _ARITH_KINDS = {z3.Z3_OP_ADD, z3.Z3_OP_SUB, z3.Z3_OP_MUL, z3.Z3_OP_UMINUS, z3.Z3_OP_IDIV, z3.Z3_OP_MOD, z3.Z3_OP_LE, z3.Z3_OP_LT, z3.Z3_OP_GE,
+                        z3.Z3_OP_GT, z3.Z3_OP_EQ, z3.Z3_OP_DISTINCT, z3.Z3_OP_AND, z3.Z3_OP_OR, z3.Z3_OP_NOT, z3.Z3_OP_IMPLIES, z3.Z3_OP_ITE,
+                        z3.Z3_OP_TRUE, z3.Z3_OP_FALSE, z3.Z3_OP_ANUM, z3.Z3_OP_XOR, z3.Z3_OP_IFF if hasattr(z3, "Z3_OP_IFF") else z3.Z3_OP_EQ}
+    if isinstance(e, bool):
+        return True
+    k = e.get_id()
+    if k in _PURE_CACHE:
+        return _PURE_CACHE[k][1]
+    ok = True
+    if not (z3.is_int(e) or z3.is_bool(e)) or not z3.is_app(e):
+        ok = False
+    else:
+        kind = e.decl().kind()
+        if kind == z3.Z3_OP_UNINTERPRETED:
+            ok = e.num_args() == 0
+        elif kind in _ARITH_KINDS:
+            ok = all(is_pure_arith(c) for c in e.children())
+        else:
+            ok = False
+    if len(_PURE_CACHE) > 200000:
+        _PURE_CACHE.clear()
+    _PURE_CACHE[k] = (e, ok)  # the term is kept alive so that its AST id cannot be reused while cached
+    return ok
+
+
 class Infeasible(Exception):
     """The current path condition became unsatisfiable."""
 
@@ -90,6 +123,8 @@ class Interp:
         self.pos = 0
         self.new_alternatives = []  # decision prefixes to explore later
         self.pc = []  # path condition (list of z3 Bool)
+        self.fact_index = set()  # sexprs of assumed facts (a condition that literally is a fact needs no solver)
+        self.arith_facts = []  # facts over integer/boolean constants only (no sequences, strings or function symbols)
         self.pc_index = {}  # sexpr of decided condition -> bool
         self.constrained_bools = set()  # propositional variables mentioned by some assumed fact
         self.facts = []  # assumptions: type facts, requires, stub axioms, callee posts
@@ -149,6 +184,9 @@ class Interp:
         if z3.is_true(fact):
             return
         self.facts.append(fact)
+        self.fact_index.add(fact.sexpr())
+        if is_pure_arith(fact):
+            self.arith_facts.append(fact)
         self._note_bools(fact)
 
     def _note_bools(self, e, depth=0):
@@ -178,6 +216,22 @@ class Interp:
     def check_sat(self, extra=None, timeout_ms=None):
         """'sat' | 'unsat' | 'unknown' for facts ∧ pc ∧ extra (short budget: unknown counts as feasible)."""
         import time
+        if extra is not None and is_pure_arith(extra):
+            # pure integer/boolean condition: decided against the pure-arithmetic part of the hypotheses only. `unsat` there
+            # is `unsat` of the whole (sound); `sat` there is treated as feasible (over-approximation of path feasibility).
+            s = z3.Solver()
+            s.set("timeout", timeout_ms or self.FEAS_TIMEOUT_MS)
+            for f in self.arith_facts:
+                s.add(f)
+            for f in self.pc:
+                if is_pure_arith(f):
+                    s.add(f)
+            s.add(extra)
+            t = time.time()
+            r = s.check()
+            self.solver_calls += 1
+            self.solver_time += time.time() - t
+            return str(r)
         s = self._solver(timeout_ms or self.FEAS_TIMEOUT_MS)
         if extra is not None:
             s.add(extra)
@@ -185,6 +239,17 @@ class Interp:
         r = s.check()
         self.solver_calls += 1
         self.solver_time += time.time() - t
+        if r == z3.unknown:
+            # the length-only relaxation can still refute (sound: it only forgets constraints)
+            from . import smt
+            rel = smt.relaxed_lengths(list(self.facts) + list(self.pc) + ([extra] if extra is not None else []))
+            if rel is not None:
+                s2 = z3.Solver()
+                s2.set("timeout", self.FEAS_TIMEOUT_MS)
+                for f in rel:
+                    s2.add(f)
+                if s2.check() == z3.unsat:
+                    return "unsat"
         return str(r)
 
     def feasible(self, cond):
@@ -225,6 +290,10 @@ class Interp:
         key = cond.sexpr()
         if key in self.pc_index:
             return self.pc_index[key]
+        if key in self.fact_index:
+            return True
+        if z3.is_not(cond) and cond.arg(0).sexpr() in self.fact_index:
+            return False
         if self.pos < len(self.decisions):
             d = self.decisions[self.pos]
             self.pos += 1
